@@ -128,12 +128,13 @@ Definition exact_regime (pls : list (option (list placed))) (s : smset) : bool :
   end.
 
 
-(* the written text lies in the READER's dialect (Formats/SMReadDom.v): everything of c02_domb except the clause on the
-   tempo beats (distinct, on the 1/48 grid), which is a property of the mapset, not of the writer.  This is the
-   hypothesis `c02_domb txt` of the read-back theorem Props/C03.v : C03_sm_write_read_back, evaluated on every text the
-   implementation wrote for a mapset of the exact domain. *)
-Definition readback_dom (t : text) (d : dfile) : bool :=
-  dialect2 t && hdr_ok d && forallb (fun c => forallb (fun n => (n mod 4 =? 0)%Z) (d_rows c)) (d_charts d).
+(* the written text lies in the READER's domain (Formats/SMReadDom.v): for a mapset in readback_guard all of c02_domb
+   (the conclusion of Props/C03.v : C03_written_text_in_reader_domain, here evaluated on the text the IMPLEMENTATION
+   wrote), otherwise everything of c02_domb except the clause on the tempo beats (distinct, on the 1/48 grid), which is
+   a property of the mapset, not of the writer. *)
+Definition readback_dom (guard : bool) (t : text) (d : dfile) : bool :=
+  dialect2 t && hdr_ok d
+  && (if guard then c02_dom d else forallb (fun c => forallb (fun n => (n mod 4 =? 0)%Z) (d_rows c)) (d_charts d)).
 
 Definition check (c : c03case) : verdict :=
   match c with
@@ -152,7 +153,7 @@ Definition check (c : c03case) : verdict :=
                                | None => false end else true)
                     && (if c03_domb_gen conf s then match txt with
                                | Some t => match sm_denote t with
-                                           | Some d => write_spec tol true s d && readback_dom t d
+                                           | Some d => write_spec tol true s d && readback_dom (readback_guard_gen conf s) t d
                                            | None => false end
                                | None => false end else true);
          wf_ok := negb dom || wf |}
